@@ -2,6 +2,15 @@
 #![allow(dead_code, unused_imports, unused_variables, unused_mut, clippy::all)]
 use super::*;
 
+/// Puts the ring directly into a state `Window::extend` can reach: not yet wrapped (`next == have < size`) or full with any
+/// write head (`have == size`, `next < size`).  `have`/`next` are private to window.rs; harnesses of other modules use this
+/// instead of replaying a history of `extend` calls (which `ki3_window_extend_ring` shows yields exactly these states).
+pub(crate) fn set_ring(w: &mut Window<'_>, have: usize, next: usize) {
+    assert!((have < w.size() && next == have) || (have == w.size() && next < w.size()));
+    w.have = have;
+    w.next = next;
+}
+
 #[kani::proof]
 #[kani::unwind(14)]
 fn ki8c_window_clone_to() {
